@@ -299,26 +299,27 @@ theorem pickCallee_unknown_policy_panics :
                  callees := [1, 2] } 0 = none := by
   decide
 
-theorem noProc_panic (env : DEnv) (s : DState) (caller : SessKey) (req : Nat) :
-    (noProc env s caller req).panic = none := by
-  unfold noProc
-  split
-  · exact syncCancel_panic ..
-  · rfl
-
 theorem syncCall_no_panic {env : DEnv} {s : DState} (h : DealerInv s) (caller : SessKey) (req : Nat) (opts : Dict)
     (proc : String) (args : List WVal) (kw : Dict) (rnd : Nat) :
     (syncCall env s caller req opts proc args kw rnd).panic = none := by
   rw [syncCall_eq]
   split
-  · exact noProc_panic ..
-  · rename_i reg hm
-    have hmem := matchProcedure_mem hm
+  · rename_i iid hb
     split
-    · exact noProc_panic ..
+    · rename_i hf
+      obtain ⟨_, v, hf', _⟩ := h.call.byCall?_some hb
+      rw [hf] at hf'; cases hf'
     · split
       · rfl
+      · exact dispatch_panic ..
+  · split
+    · rfl
+    · rename_i reg hm
+      have hmem := matchProcedure_mem hm
+      split
+      · rfl
       · split
+        · rfl
         · split
           · rename_i hp
             obtain ⟨c, reg', hp'⟩ := pickCallee_isSome h.reg.regs hmem rnd
@@ -328,12 +329,6 @@ theorem syncCall_no_panic {env : DEnv} {s : DState} (h : DealerInv s) (caller : 
             · rfl
             · rfl
             · exact dispatch_panic ..
-        · rename_i iid hb
-          split
-          · rename_i hf
-            obtain ⟨_, v, hf', _⟩ := h.call.byCall?_some hb
-            rw [hf] at hf'; cases hf'
-          · exact dispatch_panic ..
 
 /-- In a state satisfying the invariant no dealer action panics. -/
 theorem DStep.no_panic {s : DState} {o : DOut} (h : DealerInv s) (st : DStep s o) : o.panic = none := by
